@@ -102,6 +102,12 @@ class Srv6EndX(FlagLS):
         while data and len(data) >= cls.BGPLS_SUBTLV_HEADER_SIZE:
             code = unpack('!H', data[0:2])[0]
             length = unpack('!H', data[2:4])[0]
+            if len(data) < length + cls.BGPLS_SUBTLV_HEADER_SIZE:
+                raise Notify(
+                    3,
+                    5,
+                    f'SRv6 End.X SID: sub-TLV {code} too short, need {length + cls.BGPLS_SUBTLV_HEADER_SIZE} bytes, got {len(data)}',
+                )
 
             if code in cls.registered_subsubtlvs:
                 subsubtlv = cls.registered_subsubtlvs[code].unpack_bgpls(
